@@ -905,6 +905,50 @@ static void gen_round3b(rng &r, bool th)
             }
             P("arr " + S(n) + " " + sc);
         }
+    // (c) igris::ring<char>::write / read with a size_t request of 2^32 + k (repaired ab63e64: the request was
+    // truncated to k): every (head, fill) of rings 1..4 [6] x k in {0, 1, room-1, room, room+1, size}; the source
+    // holds size + 1 bytes, more than any ring of that size can take
+    for (int n = 1; n <= (th ? 6 : 4); n++)
+        for (int head = 0; head <= n; head++)
+            for (int fill = 0; fill <= n; fill++)
+                for (int which = 0; which < 2; which++)
+                {
+                    int room = n - fill;
+                    std::vector<int> ks = {0, 1, room - 1, room, room + 1, n + 1};
+                    if (which) ks = {0, 1, fill - 1, fill, fill + 1, n + 1};
+                    std::sort(ks.begin(), ks.end());
+                    ks.erase(std::unique(ks.begin(), ks.end()), ks.end());
+                    for (int k : ks)
+                    {
+                        if (k < 0) continue;
+                        P("reset tchar " + S(n));
+                        for (int i = 0; i < head; i++) { P("push 1"); P("pop"); }
+                        for (int i = 0; i < fill; i++) P("push " + S((int)(signed char)SPECIAL[(i + head) % 7]));
+                        if (!which)
+                        {
+                            std::vector<uint8_t> d((size_t)n + 2);
+                            for (size_t i = 0; i < d.size(); i++) d[i] = SPECIAL[(i + 3 + k) % 7];
+                            P("writebig " + S(k) + " " + hex(d));
+                            P("read " + S(n + 1));
+                        }
+                        else
+                        {
+                            P("readbig " + S(k));
+                            P("write ff00");
+                            P("readbig " + S(k));
+                        }
+                    }
+                }
+    for (int n : {255, 256, 300})
+    {
+        P("reset tchar " + S(n));
+        std::vector<uint8_t> d((size_t)n + 2);
+        for (auto &x : d) x = (uint8_t)r.below(256);
+        P("writebig 5 " + hex(d));
+        P("readbig 7");
+        P("writebig 0 " + hex(d));
+        P("readbig 4294967295");
+    }
     P("reset rc 1");
 }
 
